@@ -69,7 +69,8 @@ func c05Idioms() []c05Idiom {
 			return []string{"r = " + []string{"n / (inp - inp)", "n % (inp - inp)", "fl / (inp - inp)", "ch / (inp - inp)", "n / 0", "-9223372036854775807 - 1", "(-9223372036854775807 - 1) / -1", "(-9223372036854775807 - 1) % -1"}[r.Intn(8)]}
 		}},
 		{name: "shift", lines: func(r *plan.Rng) []string {
-			return []string{"r = " + []string{"1 << 9999999999", "1 << -1", "1 >> -5", "n << (inp - inp - 3)", "1 << 64", "-1 >> 70", "n &^ -1"}[r.Intn(7)]}
+			return []string{"r = " + []string{"1 << 9999999999", "1 << -1", "1 >> -5", "n << (inp - inp - 3)", "1 << 64", "-1 >> 70", "n &^ -1",
+				"1 << (-9223372036854775807 - 1)", "n >> (-9223372036854775807 - 1)", "n << (1 << 63)", "-1 >> (n - n - 9223372036854775807 - 1)", "n >> 9223372036854775807", "n << -9223372036854775807"}[r.Intn(13)]}
 		}},
 		{name: "indexGet", lines: func(r *plan.Rng) []string {
 			idx := []string{"10", "-1", "\"k\"", "fl", "u", "a", "9223372036854775807", "0", "t", "'c'"}[r.Intn(10)]
@@ -224,7 +225,13 @@ func c05Idioms() []c05Idiom {
 				{"cy := [0]", "cy[0] = cy", "r = freeze(cy)", "r = type_name(r)"},
 				{"cy := {}", "cy.self = cy", "r = cy.self.self.self == undefined"},
 				{"cy := [0]", "cy[0] = cy", "gcy = cy"},
-			}[r.Intn(4)]
+				// immutable() shares the backing store of its operand: the loop can be
+				// closed through the immutable wrapper itself
+				{"cya := [0]", "cyb := immutable(cya)", "cya[0] = cyb", "r = type_name(freeze(cyb))"},
+				{"cym := {}", "cyi := immutable(cym)", "cym.self = cyi", "r = type_name(freeze(cyi))"},
+				{"cya := [0, [1]]", "cyb := immutable(cya)", "cya[0] = cyb", "r = type_name(freeze([cyb, {k: cyb}]))"},
+				{"cym := {l: [1]}", "cyi := immutable(cym)", "cym.l[0] = cyi", "r = len(freeze(cyi))"},
+			}[r.Intn(8)]
 		}},
 		{name: "closureEscape", lines: L(
 			"fs := []",
@@ -389,7 +396,7 @@ func genC05(r *plan.Rng) *plan.Plan {
 	case x == 2:
 		cs = plan.CtxSpec{Kind: "cancel", Step: r.Range(0, 200)}
 	case x == 3:
-		cs = plan.CtxSpec{Kind: []string{"preCancelled", "deadlinePast", "childOfCancelled"}[r.Intn(3)]}
+		cs = plan.CtxSpec{Kind: []string{"preCancelled", "deadlinePast", "childOfCancelled", "cancelledPastDeadline"}[r.Intn(4)]}
 	}
 	p.Ctxs = []plan.CtxSpec{cs}
 	note(p, "ctx", cs.Kind)
